@@ -4,8 +4,11 @@
    that does not fit; it may not produce a ciphertext nobody can open. *)
 EXTENDS Integers, Sequences, TLC, Json
 VARIABLES l, bad
-OkLine(r) == /\ r.panics = 0 /\ r.policy_ok /\ r.satisfies
-             /\ (r.encrypt_err \/ (r.could_decrypt /\ r.decrypt_ok))
+\* "print": a policy of 6 to 9 leaves that has been used once (Satisfaction re-sorts its gates) is printed and parsed again: the two must
+\* answer alike on every sampled attribute set
+OkLine(r) == IF r.ev = "print" THEN r.panics = 0 /\ r.reparse_ok /\ r.agree
+             ELSE /\ r.panics = 0 /\ r.policy_ok /\ r.satisfies
+                  /\ (r.encrypt_err \/ (r.could_decrypt /\ r.decrypt_ok))
 INSTANCE LinesTrace WITH Ok <- OkLine
 ASSUME TLCSet(1, 0) /\ TLCSet(2, {}) /\ TLCSet(3, ndJsonDeserialize("trace.ndjson"))
 ====
